@@ -5,6 +5,7 @@
      c ENTS | KEYREFS                register the collector's answer for a merged input        -> ok
      new                             open_fresh                                                -> ok
      flush L ROLL ENTS               BFlush (ENTS in write order)                              -> step answer
+     ingest ROLL ENTS                LsmTree::ingest of an external sst (ENTS sorted)          -> step answer
      compact ROLL NAMES LENS         BCompact                                                  -> step answer
      gc ROLL NAMES LENS              BGc                                                       -> step answer
      move NAME                       BMove                                                     -> step answer
@@ -171,6 +172,7 @@ let () =
          | "policy" -> versions := int_of_string (w 0); print_endline "ok"
          | "new" -> s := open_fresh; over := []; gone := []; missing := 0; print_endline "ok"
          | "flush" -> step (BFlush (parse_entries (w 2), n_of_dec (w 0), w 1 = "1"))
+         | "ingest" -> step (BIngest (parse_entries (w 1), w 0 = "1"))
          | "compact" -> step (BCompact (nm (w 1), lens (w 2), w 0 = "1"))
          | "gc" -> step (BGc (nm (w 1), lens (w 2), w 0 = "1"))
          | "move" -> step (BMove (state_of_hex (w 0)))
